@@ -129,6 +129,17 @@ def make(n_notes, n_ctrl, two_thr=False, preset=False):
             must_not_raise(_set, _what="sustain_pedal_threshold setter")
             for a, b in zip(pp.notes, pp2.notes):
                 check(a["sound_off"] == b["sound_off"], "setting the threshold did not recompute the sounding ends")
+            # ... also when the value assigned is the current one: after the pedal events are taken away, assigning
+            # the threshold again leaves every note ending at its release
+            del pp.controls[:]
+
+            def _set_same():
+                pp.sustain_pedal_threshold = thr2
+
+            must_not_raise(_set_same, _what="sustain_pedal_threshold setter (same value)")
+            for i, n in enumerate(pp.notes):
+                check(n["sound_off"] == notes[i][1], "assigning the current threshold did not recompute the sounding ends",
+                      i, n["sound_off"], notes[i][1])
         return obs
 
     h.__signature__ = inspect.Signature(
